@@ -126,6 +126,10 @@ DROP_PROBES = {
     "for-with-pass-body": ("for i in range(3):\n    pass\n", "for ("),
     "while-with-comment-only-body": ("from Reduino.Sensors import Button\nb = Button(4)\nwhile not b.is_pressed():\n    # wait\n    pass\n", "while ("),
     "if-with-pass-body-keeps-else": ("x = 1\nif x > 5:\n    pass\nelse:\n    x = 7\n", "else"),
+    "assignment-to-name-starting-with-from": ("from_level = 3\ny = from_level + 1\n", "from_level"),
+    "call-of-helper-starting-with-import": ("def important_blink():\n    return 1\nimportant_blink()\nz = 2\n", "important_blink()"),
+    "augmented-assignment-to-name-starting-with-import": ("imported = 1\nimported += 2\n", "imported + 2"),
+    "inner-else-of-if-nested-in-else-less-if": ("c = 1\nif c > 0:\n    fresh = 2\n    if c > 5:\n        w = 1\n    else:\n        w = 77\n", "77"),
     "del": ("x = 1\ndel x\n", "x"),
     "unknown-method-on-device": ("from Reduino.Actuators import Led\nled = Led(13)\nled.explode(3)\n", "explode"),
     "augmented-attribute": ("from Reduino.Actuators import Led\nled = Led(13)\nled.brightness += 1\n", "brightness"),
